@@ -20,8 +20,9 @@ type Tuple = Vec<String>;
 
 #[derive(Clone, Debug, PartialEq)]
 pub enum VOp {
-    /// get-or-create through the slice (false) or map (true) form; binds handle `hid`
-    GetOrCreate { t: Tuple, map: bool, hid: usize },
+    /// get-or-create through the slice (false) or map (true) form - or, `local`, through a fresh local vector (whose
+    /// with_label_values asks the shared vector; updates through the handle are flushed at once); binds handle `hid`
+    GetOrCreate { t: Tuple, map: bool, local: bool, hid: usize },
     Inc { hid: usize, bit: u32 },
     Get { hid: usize },
     Remove { t: Tuple, map: bool },
@@ -52,6 +53,8 @@ struct VModel {
     map: BTreeMap<Tuple, usize>,
     val: Vec<u64>,
     bind: BTreeMap<usize, usize>,
+    /// handles that are local vectors: their own `get` shows the pending amount (always 0 here), not the child
+    local: std::collections::BTreeSet<usize>,
     cbind: BTreeMap<(usize, Tuple), usize>,
     /// collections whose key set has been read but whose per-child values have not all been read yet:
     /// no operation that changes the map may take effect in between (the library holds the map's read
@@ -64,7 +67,10 @@ impl Model for VModel {
     type Res = VRes;
     fn apply(&mut self, op: &VOp) -> VRes {
         match op {
-            VOp::GetOrCreate { t, hid, .. } => {
+            VOp::GetOrCreate { t, hid, local, .. } => {
+                if *local {
+                    self.local.insert(*hid);
+                }
                 let c = match self.map.get(t) {
                     Some(c) => *c,
                     None => {
@@ -85,6 +91,7 @@ impl Model for VModel {
                 }
                 VRes::Unit
             }
+            VOp::Get { hid } if self.local.contains(hid) => VRes::Val(0),
             VOp::Get { hid } => VRes::Val(self.bind.get(hid).map_or(u64::MAX, |c| self.val[*c])),
             VOp::Remove { t, .. } => {
                 if self.map.contains_key(t) && !self.open.is_empty() {
@@ -135,6 +142,9 @@ enum AnyChild {
     IC(prometheus::IntCounter),
     C(prometheus::Counter),
     G(prometheus::Gauge),
+    /// a local vector that has been asked for the tuple (it keeps the child it was given)
+    LIC(Arc<Mutex<prometheus::local::LocalIntCounterVec>>, Tuple),
+    LC(Arc<Mutex<prometheus::local::LocalCounterVec>>, Tuple),
 }
 
 #[derive(Clone)]
@@ -172,7 +182,25 @@ impl Sys {
     }
     fn exec(&self, op: &VOp) -> VRes {
         match op {
-            VOp::GetOrCreate { t, map, hid } => {
+            VOp::GetOrCreate { t, local: true, hid, .. } => {
+                let refs: Vec<&str> = t.iter().map(|s| s.as_str()).collect();
+                let c = match &self.v {
+                    AnyVec::IC(v) => {
+                        let mut l = v.local();
+                        l.with_label_values(&refs);
+                        AnyChild::LIC(Arc::new(Mutex::new(l)), t.clone())
+                    }
+                    AnyVec::C(v) => {
+                        let mut l = v.local();
+                        l.with_label_values(&refs);
+                        AnyChild::LC(Arc::new(Mutex::new(l)), t.clone())
+                    }
+                    AnyVec::G(_) => unreachable!("gauge vectors have no local form"),
+                };
+                self.handles.lock().unwrap().insert(*hid, c);
+                VRes::Unit
+            }
+            VOp::GetOrCreate { t, map, hid, .. } => {
                 let c = self.get(t, *map).expect("valid request refused");
                 self.handles.lock().unwrap().insert(*hid, c);
                 VRes::Unit
@@ -183,6 +211,18 @@ impl Sys {
                     Some(AnyChild::IC(c)) => c.inc_by(1u64 << bit),
                     Some(AnyChild::C(c)) => c.inc_by((1u64 << bit) as f64),
                     Some(AnyChild::G(c)) => c.add((1u64 << bit) as f64),
+                    Some(AnyChild::LIC(l, t)) => {
+                        let refs: Vec<&str> = t.iter().map(|s| s.as_str()).collect();
+                        let mut l = l.lock().unwrap();
+                        l.with_label_values(&refs).inc_by(1u64 << bit);
+                        l.flush();
+                    }
+                    Some(AnyChild::LC(l, t)) => {
+                        let refs: Vec<&str> = t.iter().map(|s| s.as_str()).collect();
+                        let mut l = l.lock().unwrap();
+                        l.with_label_values(&refs).inc_by((1u64 << bit) as f64);
+                        l.flush();
+                    }
                     None => {}
                 }
                 VRes::Unit
@@ -193,6 +233,14 @@ impl Sys {
                     Some(AnyChild::IC(c)) => c.get(),
                     Some(AnyChild::C(c)) => c.get() as u64,
                     Some(AnyChild::G(c)) => c.get() as u64,
+                    Some(AnyChild::LIC(l, t)) => {
+                        let refs: Vec<&str> = t.iter().map(|s| s.as_str()).collect();
+                        l.lock().unwrap().with_label_values(&refs).get()
+                    }
+                    Some(AnyChild::LC(l, t)) => {
+                        let refs: Vec<&str> = t.iter().map(|s| s.as_str()).collect();
+                        l.lock().unwrap().with_label_values(&refs).get() as u64
+                    }
                     None => u64::MAX,
                 })
             }
@@ -293,7 +341,7 @@ impl Property for C10 {
         "C10"
     }
     fn rule(&self) -> &'static str {
-        "case = one IntCounterVec / CounterVec / GaugeVec with 1-2 label names (two: declared as a,b or as b,a) and 2-3 overlapping (boundary-shifted) tuples (20%: the same shapes around U+00FF and NUL); either \
+        "case = one IntCounterVec / CounterVec / GaugeVec with 1-2 label names (two: declared as a,b or as b,a; a sixth of the requests to counter vectors go through a fresh local vector, whose handle flushes every update at once) and 2-3 overlapping (boundary-shifted) tuples (20%: the same shapes around U+00FF and NUL); either \
          2-3 threads x 2-5 operations under a generated schedule (walk / PCT / window), or one thread with up to 40 operations \
          (sequential history). Operations: get-or-create (slice or map form) binding a handle, inc_by(2^i) / get through a handle, \
          remove (slice or map form), reset, collect, a wrong-arity request; 1.5% of the concurrent programs run on a vector that \
@@ -372,7 +420,9 @@ impl Property for C10 {
                     0..=4 => {
                         next_hid += 1;
                         my_handles.push(next_hid - 1);
-                        VOp::GetOrCreate { t, map: src.chance(80), hid: next_hid - 1 }
+                        // a sixth of the requests to counter vectors go through a fresh local vector
+                        let local = kind <= 5 && src.chance(40);
+                        VOp::GetOrCreate { t, map: src.chance(80), local, hid: next_hid - 1 }
                     }
                     5..=8 if !my_handles.is_empty() && next_bit < 50 => {
                         next_bit += 1;
